@@ -113,6 +113,14 @@ def static_check(ctx, mode, total, extra="", select=None, oracle_relevant=None, 
                 corr = corr or (c, "event %d: impl `%s` model `%s`" % de)
                 continue
             mo = m.outs[0] if m.outs else ""
+            for vl in m.outs[1:]:
+                if vl.startswith("val "):
+                    kv = dict(x.split("=") for x in vl.split()[1:])
+                    stats["sat_answers_validated"] = stats.get("sat_answers_validated", 0) + int(kv["sat_ok"])
+                    stats["unsat_answers_seen"] = stats.get("unsat_answers_seen", 0) + int(kv["unsat"])
+                    if int(kv["sat_bad"]) > 0:
+                        ctx.violation("%s: a recorded SAT model does not satisfy the clauses and assumptions of its call (the backend's answer is invalid: hypothesis valid_oracle fails on this run)" % c.kind,
+                                      c.text(), found_input=True, key="badsat")
             if canon_outcome(o0) != canon_outcome(mo):
                 corr = corr or (c, "outcome: impl `%s` model `%s`" % (o0[:120], mo[:120]))
     if corr and not ctx.violations and not getattr(ctx, "_searching", False):
